@@ -10,10 +10,35 @@ import (
 // kv/memory store, wired to the other real members as a stabilised ring (what the repo's own tests build with
 // Create/Join and waiting, here built directly from the ring oracle of chord_stubs.go).
 
-// zzUFHash is the store's hash function: an uninterpreted function of the key bytes reduced to the 2^48 ring
-// (functionally consistent: equal keys hash equally; nothing else is known, so a key can fall in any arc, on any
-// boundary, and two different keys may collide).
-func zzUFHash(b []byte) uint64 { return rt.UFBytes("hash", b) & zzMask }
+// The stores' hash function is table-driven: every key the harness creates gets an arbitrary 48-bit hash of its own
+// (zzNewKeyHash), and zzTabHash returns the hash of the table entry whose key equals its argument (one if-then-else
+// term per entry, no case split). It is a function of the key bytes (equal keys hash equally), nothing else is known
+// about it, so a key can fall in any arc, on any boundary, and two different keys may collide. (An uninterpreted
+// function symbol says the same; the table keeps the solver's queries purely bit-vector, which is 10-100x faster.)
+type zzHashEntry struct {
+	key  []byte
+	hash uint64
+}
+
+var zzHashTab []zzHashEntry
+
+func zzResetHashes() { zzHashTab = nil }
+
+// zzNewKeyHash registers key (which must differ from every registered key) with a fresh arbitrary hash < 2^48.
+func zzNewKeyHash(key []byte) uint64 {
+	h := rt.U64("hash")
+	rt.Assume(h < zzM)
+	zzHashTab = append(zzHashTab, zzHashEntry{key: key, hash: h})
+	return h
+}
+
+func zzTabHash(b []byte) uint64 {
+	h := uint64(0)
+	for _, e := range zzHashTab {
+		h = rt.IteU64(rt.EqBytes(e.key, b), e.hash, h)
+	}
+	return h
+}
 
 // zzFwd is a finger entry of a real ring: its id is the oracle's owner term, and a lookup sent to it is dispatched
 // to the real member with that id (the case split happens only when the entry is used).
@@ -73,6 +98,31 @@ func zzNewRealRing(ring *zzRing, hash chord.HashFn, topFingers bool) *zzRealRing
 		}
 	}
 	return rr
+}
+
+// zzNewRingCmp is zzNewRing with the clockwise order of the members stated by comparisons instead of modular
+// distances (the same set of rings: n pairwise distinct ids < 2^48 listed clockwise from an arbitrary member 0, i.e.
+// the cyclic sequence descends exactly once). The solver relates it to chord.Between and zzInArc much faster.
+func zzNewRingCmp(n int) *zzRing {
+	r := &zzRing{ids: make([]uint64, n), dist: make([]uint64, n)}
+	for i := range r.ids {
+		r.ids[i] = rt.U64("id")
+		rt.Assume(r.ids[i] < zzM)
+	}
+	if n == 1 {
+		return r
+	}
+	descents := 0
+	for i := range r.ids {
+		next := r.ids[(i+1)%n]
+		rt.Assume(r.ids[i] != next)
+		descents += rt.IteInt(r.ids[i] > next, 1, 0)
+	}
+	rt.Assume(descents == 1)
+	for i := 1; i < n; i++ {
+		r.dist[i] = (r.ids[i] - r.ids[0]) & zzMask
+	}
+	return r
 }
 
 // zzInArc: reference membership of h in the circular interval (low, high] of the identifier ring, written from the
